@@ -88,6 +88,11 @@ class Judge:
         if key in self.seen:
             return False
         self.seen.add(key)
+        if wider_than_double(before) or wider_than_double(after):
+            # upcast of a float64 value is the platform's long double: named constants (largest, eps, ...) then denote the long double's, which the
+            # float64 / exact-rational interpreters of this harness do not model - not judged
+            rec.count("skipped:wider-than-double")
+            return False
         syms = exprinterp.symbols_of(before)
         syms_after = exprinterp.symbols_of(after)
         ids = {id(s) for s in syms}
@@ -298,6 +303,17 @@ def pick(v, j):
         return [pick(x, j) for x in v]
     v = numpy.asarray(v)
     return v[j] if v.shape else v[()]
+
+
+def wider_than_double(e):
+    for n in graph.walk(e):
+        try:
+            t = n.get_type()
+        except Exception:
+            continue
+        if (t.kind == "float" and (t.bits or 0) > 64) or (t.kind == "complex" and (t.bits or 0) > 128):
+            return True
+    return False
 
 
 def describe(e):
